@@ -134,7 +134,7 @@ CONC = {
                 assumptions=['"they do return" is progress (C03: every accepted job is eventually closed) plus C05_wait_stays_enabled',
                              'Result()/Err() read the per-job response channel, which the finisher fills before it closes the job (order fixed by program order of the pool goroutine; monitored)']),
     'C07': dict(module='Properties.C07', file='Properties/C07.v', slices=['resp', 'job'],
-                families=['burst', 'batch', 'cancel', 'lifecycle', 'readers'],
+                families=['burst', 'batch', 'cancel', 'lifecycle', 'readers', 'persist'],
                 quick_episodes=300, thorough_episodes=4000,
                 native=dict(scenarios=['outcomes'], rounds=1, thorough_rounds=1),
                 rule=SLICE_JOB_RULE + '; native mode: 700 jobs with value / error / panic(int) / panic(struct) / panic([]byte) outcomes on error, result and plain workers at concurrency 4..6 under real parallelism, every handle read twice; per single error / result job the channel operations on its response are projected onto coq/SliceResp.v (send, close, receives with payload digests) and replayed; '
@@ -203,7 +203,7 @@ CONC = {
                 assumptions=['the adapter hands each pending item to one DequeueWithAckId caller and notifies every subscriber once per accepted item (adapter contract)',
                              'each consumer\'s wake-up protocol is replayed separately against the shared pending count; that the consumers together drain the adapter follows per consumer (a parked consumer with items pending below its limit has a notification buffered or owed) and is also monitored']),
     'C14': dict(module='Properties.C14', file='Properties/C14.v', slices=['life'],
-                families=['lifeseq', 'lifecycle', 'pool'],
+                families=['lifeseq', 'lifecycle', 'pool', 'ctxstop'],
                 quick_episodes=700, thorough_episodes=15000,
                 rule='episodes of family lifeseq = generated sequences of 1..5 lifecycle calls (Bind, Pause, PauseAndWait, Resume, Stop, WaitAndStop, Restart, '
                      'TunePool incl. n<1, context cancel, interleaved Adds), with / without WithContext and idle expiry, executed one after the other with the '
